@@ -63,7 +63,7 @@ func init() {
 	add("C15", "R15h: under GenerateCachingSchedule no write reaches a list recorded by AddBlockSummary or anything that may alias it (sub-slices, phi merges, callee parameters, handed-back results). R15i: no allocation of the generator is sized by its memory-limit parameter.", "")
 	add("C03", "R03j: in the hashing core a cursor over a list of hashes advances only where the hash at the cursor was read in that iteration. R03c also requires, in a verifier that compares the hash and target counts, that every success return lies behind that comparison.", "")
 	add("C04", "R04e also requires a slice made with a fixed length and filled through a counter of its own to have that counter bounded by the length.", "")
-	add("C13", "R13h: no read of the restore code turns io.EOF into success (the formats announce their record counts). R13i: a failing return of a stream function hands out the running total.", "")
+	add("C13", "R13h: no read of the restore code turns io.EOF into success (the formats announce their record counts). R13i: a failing return of a stream function hands out the running total. R13j: the count of a stream operation is added to the total before the error test that follows it, so the bytes a failing operation did transfer are reported.", "")
 	add("C03", "R03i: neither hash input of the parent-hash step in the core can be the default value of its variable (no path leaves the sibling unassigned).", "")
 	add("C04", "R04e also covers the mirror image: a library-computed slice indexed by a counter whose only bound is the length of a caller-supplied slice needs a dominating test relating the two lengths (verification bounds the caller's lists from below only).", "")
 }
